@@ -20,7 +20,6 @@ EXCUSES = {
     'tls-framer-keyerror-in-multi-unit-mode': ({'missing', 'escaped:KeyError', 'closed'}, "TLS framer has no 'uid' header: KeyError in multi-unit mode"),
     'twisted-udp-dead': ({'missing', 'escaped:TypeError'}, 'Twisted UDP protocol raises TypeError on every datagram'),
     'binary-delimiter-in-body': ({'missing', 'closed'}, 'a binary request frame containing 0x7B/0x7D is not received intact'),
-    'sync-udp-broadcast-filtered': ({'missing'}, 'sync UDP handler does not add unit 0 to the framer filter: broadcast frames are dropped with the rest of the datagram'),
     'twisted-listen-only-is-permanent': ({'missing'}, 'Twisted front-end stays silent after force-listen-only'),
 }
 
